@@ -10,7 +10,7 @@ oracle : independent of the model, exact Fractions: every focal interval [left_i
          exact stream, a few ulp per entry otherwise); the four identities and the zero cases on the real outputs.
 """
 from __future__ import annotations
-import math, operator, json
+import math, operator, json, sys
 from fractions import Fraction as F
 import numpy as np
 from . import core, pbx
@@ -192,12 +192,10 @@ def shape_box(rng, shape, sign):
         v = sorted(set(l))[rng.randrange(4)]
         r = [b if a != v else a for a, b in zip(l, r)]
         r = [int(x) for x in np.maximum.accumulate(r)]
-        if sum(1 for a, b in zip(sorted(set(zip(l, r))), [0] * 9) if a[0] == a[1]) != 1:
+        if sum(1 for a, b in set(zip(l, r)) if a == b) != 1:
             return shape_box(rng, shape, sign)
-    if sign == "neg":
-        l, r = [-x for x in reversed(r)], [-x for x in reversed(l)]     # flatL <-> flatR swap under the mirror: undo below
-        if shape in ("flatL", "flatR"):
-            pass
+    if sign == "neg":      # the mirror image turns flatL into flatR and back: both are requested for every sign
+        l, r = [-x for x in reversed(r)], [-x for x in reversed(l)]
     elif sign == "str":
         l, r = [x - 450 for x in l], [x - 450 for x in r]
     assert all(a <= b for a, b in zip(l, r)) and l == sorted(l) and r == sorted(r)
@@ -422,6 +420,47 @@ def compare_steps(res, L, U, exact, depth):
     return None
 
 
+def overflow_bad(c, impl):
+    """the exact image of some steps is not representable in binary64 (exp(1000), x*1e306): the property's "exact image"
+    cannot be returned there, so the call MAY raise; if it returns a box, the overflowing steps must be exactly +-inf,
+    every other step the image as usual, no NaN anywhere, and both bounds non-decreasing"""
+    if impl[0] == "err":
+        return None
+    if impl[0] != "ok":
+        return "returned a " + str(impl[1])
+    l, r = c["box"]
+    big = F(sys.float_info.max)
+    if c["k"] == "un":
+        def g(x):
+            try:
+                return math.exp(x)
+            except OverflowError:
+                return math.inf
+    else:
+        cc = F(c["c"])
+        def g(x):
+            v = F(x) * cc
+            return math.inf if v > big else -math.inf if v < -big else float(v)
+    for name, got in (("left", impl[1]), ("right", impl[2])):
+        if any(isinstance(a, float) and math.isnan(a) for a in got):
+            return f"{name} holds NaN"
+        if any(got[i] > got[i + 1] for i in range(len(got) - 1)):
+            return f"{name} is not non-decreasing"
+    want_l, want_r = sorted(g(float(x)) for x in l), sorted(g(float(x)) for x in r)
+    if want_l and want_l[0] > want_r[0]:
+        want_l, want_r = want_r, want_l
+    for name, got, want in (("left", impl[1], want_l), ("right", impl[2], want_r)):
+        if len(got) != len(want):
+            return f"{name} has {len(got)} steps"
+        for i, (a, w) in enumerate(zip(got, want)):
+            if math.isinf(w):
+                if not (isinstance(a, float) and math.isinf(a) and (a > 0) == (w > 0)):
+                    return f"{name}[{i}] = {a!r}, the image overflows: expected {w!r}"
+            elif not core.close(a, F(w), 4):
+                return f"{name}[{i}] = {a!r}, expected {w!r}"
+    return None
+
+
 def roundtrip_bad(c, res):
     """log/exp/sqrt: undo the map with the C library and compare with the operand's steps"""
     inv = {"exp": math.log, "log": math.exp, "sqrt": lambda y: y * y}[c["f"]]
@@ -629,6 +668,77 @@ def gen_cases(ctx):
             l, r, kd = pbx.lib_box200(rng, sg if sg in ("pos", "neg", "str") else "pos"); bc = "lib-" + kd; box, intbox = (l, r), False
         cases.append(new_case("pow", box, intbox=intbox, ckind=kind, c=cv, bcls=bc, stream="pow", via=rng.choice(["bare", "method"])))
     cases += extra_cases(ctx)
+    cases += round4_cases(ctx)
+    return cases
+
+
+def round4_cases(ctx):
+    """shapes of the bounds (one flat bound, unaligned steps, one zero-width component) under every map;
+    numpy unsigned / narrow scalar kinds; domain edges that must raise; overflow that must not"""
+    rng = ctx.rng
+    cases = []
+    allk = KINDS + XKINDS
+    ki = 0
+    for shape in SHAPES:
+        for sg in ("pos", "neg", "str"):
+            for op in OPS:
+                for order in ("num", "rnum"):
+                    if order == "rnum" and op == "div" and sg == "str":
+                        continue
+                    for cc in ("neg", "m1", "zero", "one", "pos"):
+                        kind = allk[ki % len(allk)]; ki += 1
+                        if kind in UNSIGNED and cc in ("neg", "m1"):
+                            kind = rng.choice(["int", "float", "npf", "npi", "npi8"])
+                        box = shape_box(rng, shape, sg)
+                        cases.append(new_case(order, box, op=op, ckind=kind, c=const_value(rng, kind, cc, True), ccls=cc,
+                                              bcls=shape_of(*box) if shape in ("flatL", "flatR") else shape, stream="shape",
+                                              via=rng.choice(["bare", "method"])))
+            box = shape_box(rng, shape, sg)
+            bl = lambda b: shape_of(*b) if shape in ("flatL", "flatR") else shape
+            cases.append(new_case("neg", box, bcls=bl(box), stream="shape"))
+            if sg != "str":
+                box = shape_box(rng, shape, sg)
+                cases.append(new_case("recip", box, bcls=bl(box), stream="shape", via=rng.choice(["method", "ufunc"])))
+            for f in (UNARY if sg == "pos" else ("exp",)):
+                box = shape_box(rng, shape, sg)
+                if f == "exp":
+                    box = ([x / 4.0 for x in box[0]], [x / 4.0 for x in box[1]])
+                cases.append(new_case("un", box, f=f, bcls=bl(box), stream="shape", via=rng.choice(["method", "ufunc"])))
+            for kind, cv in (("int", 2), ("npi", 3), ("npu8", 2), ("npu64", 3), ("npi8", 4), ("float", 0.5), ("npf32", 1.5)):
+                if kind in ("float", "npf32") and sg != "pos":
+                    continue
+                box = shape_box(rng, shape, sg)
+                cases.append(new_case("pow", box, ckind=kind, c=cv, bcls=bl(box), stream="shape", via=rng.choice(["bare", "method"])))
+    # numpy unsigned / narrow scalar kinds on ordinary boxes
+    for kind in XKINDS:
+        for op in OPS:
+            for order in ("num", "rnum"):
+                for cc in (("zero", "one", "pos") if kind in UNSIGNED else ("neg", "zero", "one", "pos")):
+                    bc = rng.choice(["pos", "neg"]) if (order == "rnum" and op == "div") else rng.choice(["pos", "neg", "str", "any"])
+                    box = make_box(rng, bc) if rng.random() < 0.5 else distinct_steps_box(rng, bc if bc in ("pos", "neg", "str") else "pos")
+                    cases.append(new_case(order, box, op=op, ckind=kind, c=const_value(rng, kind, cc, True), ccls=cc, bcls=bc,
+                                          stream="xkind", via=rng.choice(["bare", "method"])))
+    # (G) just outside the domain: must raise
+    for f in ("log", "sqrt"):
+        for via in ("method", "ufunc"):
+            l, r = distinct_steps_box(rng, "pos")
+            l = [float(x) for x in l]; r = [float(x) for x in r]
+            l[0] = -1e-17
+            cases.append(new_case("un", (l, r), intbox=False, f=f, bcls="edge-neg-tiny", stream="edge", via=via))
+    l, r = distinct_steps_box(rng, "pos")
+    cases.append(new_case("un", ([0] + l[1:], r), f="log", bcls="edge-zero", stream="edge", via="method"))
+    # overflow: the exact image of the upper steps is not representable; raising is allowed, a returned box must have
+    # +-inf exactly there, the other steps right, no NaN, non-decreasing bounds (negative factor: -inf at the low end)
+    for via in ("method", "ufunc"):
+        base = sorted(rng.uniform(600.0, 1000.0) for _ in range(N))
+        wdt = rng.choice([1.0, 5.0])
+        cases.append(new_case("un", (base, [x + wdt for x in base]), intbox=False, f="exp", bcls="overflow",
+                              stream="overflow", via=via, notie=True))
+        cases.append(new_case("un", ([600.0] * N, base), intbox=False, f="exp", bcls="overflow", stream="overflow", via=via, notie=True))
+    for kind, cv in (("float", 1e306), ("npf", -1e306)):
+        l, r = distinct_steps_box(rng, "pos")
+        cases.append(new_case("num", (l, r), op="mul", ckind=kind, c=cv, ccls="huge", bcls="overflow", stream="overflow",
+                              via="bare", notie=True))
     return cases
 
 
@@ -693,6 +803,10 @@ def tie_agrees(c, impl, model, rep):
         # a zero bound gives inf in numpy, not representable in the model: both must fail to give a finite box
         bad_impl = impl[0] != "ok" or any(not math.isfinite(v) for v in impl[1] + impl[2])
         return (bad_impl and model[0] == "err"), True
+    if c["k"] == "num" and c["op"] == "div" and c["c"] == 0:
+        # which exception a zero divisor produces depends on the kind of the zero (ZeroDivisionError for Python
+        # numbers; for numpy zeros 1/0 is inf and the constructor rejects P*inf): the statement is "an error"
+        return (impl[0] == "err" and model[0] == "err"), True
     depth = 16
     return pbx.same(impl, model, exact_case(c), depth), True
 
@@ -747,6 +861,18 @@ def evaluate(ctx, c, rep, keep=None):
         if impl[0] != "err":
             ctx.fail({**feat, "check": "div-zero", "symptom": "no-error"}, cj(), f"{what}: division by zero did not raise")
         return impl
+    if c["stream"] == "overflow":
+        w = overflow_bad(c, impl)
+        ctx.bump("overflow:" + ("raised" if impl[0] == "err" else "returned"))
+        if w is not None:
+            ctx.fail({**feat, "check": "overflow", "symptom": "wrong-step"}, cj({"witness": w}),
+                     f"{what}: some images exceed the largest double; the call may raise, but the box it returned is wrong: {w}")
+        return impl
+    if c["k"] == "un" and ((c["f"] == "log" and min(c["box"][0]) <= 0) or (c["f"] == "sqrt" and min(c["box"][0]) < 0)):
+        if impl[0] == "ok":
+            ctx.fail({**feat, "check": "domain-edge", "symptom": "no-error"}, cj(),
+                     f"{what}: the p-box reaches {min(c['box'][0])!r}, outside the domain of {c['f']}, and no error was raised")
+        return impl
     if not in_domain(c):
         return impl
     if impl[0] != "ok":
@@ -776,6 +902,13 @@ def evaluate(ctx, c, rep, keep=None):
     return impl
 
 
+FOLLOW = (("neg", {}), ("num", {"op": "mul", "ckind": "float", "c": -2.0, "ccls": "neg", "via": "bare"}),
+          ("rnum", {"op": "sub", "ckind": "int", "c": 3, "ccls": "pos", "via": "bare"}),
+          ("num", {"op": "div", "ckind": "npf", "c": -4.0, "ccls": "neg", "via": "method"}),
+          ("num", {"op": "add", "ckind": "npi", "c": 7, "ccls": "pos", "via": "bare"}),
+          ("rnum", {"op": "mul", "ckind": "npf", "c": 0.5, "ccls": "pos", "via": "bare"}))
+
+
 def run(ctx: core.Check):
     core.stub_moments()
     ctx.rule = ("200-step p-boxes (integer step boxes of every sign class incl. zero-touching, precise, interval, point, all-distinct "
@@ -788,7 +921,9 @@ def run(ctx: core.Check):
                        "the oracle checks them against the C library and by undoing the map",
                        "P**c on a zero-straddling p-box goes through Interval.__pow__ and stacking (C05/C08): oracle only, integer c",
                        "moments (LP) are stubbed in the harness process; they are C04's concern",
-                       "reading of 'P * 0 is the number 0': every step of the returned p-box is [0,0]"]
+                       "reading of 'P * 0 is the number 0': every step of the returned p-box is [0,0]",
+                       "binary64 overflow is outside the model: where the exact image of a step is not representable the call may "
+                       "raise; a returned box must carry exactly +-inf there, the right values elsewhere, no NaN, ordered bounds"]
     ctx.lean_stage(["Pun.Lemmas.PBoxNum", "Pun.Props.C06"])
     cases = gen_cases(ctx)
     replies = core.model_batch("C06", [wire(c) for c in cases])
@@ -818,6 +953,16 @@ def run(ctx: core.Check):
         impl = evaluate(ctx, c, rep, keep)
         if impl[0] == "ok" and "result" in keep:
             alive.append({"case": c, "result": keep["result"], "operand": keep["operand"], "canon": impl})
+        if idx % 6 == 2 and impl[0] == "ok" and "result" in keep and all(math.isfinite(v) for v in impl[1] + impl[2]):
+            # (F) the operand is used again after the call, and the result becomes the operand of the next call
+            nxt = FOLLOW[(idx // 6) % len(FOLLOW)]
+            c2 = new_case(nxt[0], c["box"], intbox=c["intbox"], repr=c.get("repr", "float"), bcls=c.get("bcls", "-"),
+                          stream="reuse", _obj=keep["operand"], **nxt[1])
+            c3 = new_case(nxt[0], (impl[1], impl[2]), intbox=False, bcls="result of " + describe(c), stream="chain",
+                          _obj=keep["result"], **nxt[1])
+            for cx in (c2, c3):
+                ctx.count(("follow", idx, cx["stream"]), True, cx["stream"])
+                evaluate(ctx, cx, None)
         if idx % 7 == 0:
             pending.append((idx + 5, c, impl))
         if idx % 4 == 1 and len(recorded) < 400:
